@@ -14,12 +14,14 @@ import (
 
 	"github.com/libp2p/go-libp2p/core/crypto"
 	"github.com/libp2p/go-libp2p/core/network"
+	"github.com/libp2p/go-libp2p/core/protocol"
 	"go.uber.org/zap"
 	"google.golang.org/protobuf/proto"
 
 	"berty.tech/weshnet/v2/internal/handshake"
 	"berty.tech/weshnet/v2/internal/verifsim/kernel"
 	"berty.tech/weshnet/v2/internal/verifsim/sched"
+	"berty.tech/weshnet/v2/pkg/ipfsutil"
 	"berty.tech/weshnet/v2/pkg/protocoltypes"
 	"berty.tech/weshnet/v2/pkg/protoio"
 )
@@ -38,6 +40,8 @@ type c06pipe struct {
 	ch     chan []byte
 	rest   []byte
 	closed bool
+	// coalesce: one Read hands over everything that has been written so far (several frames in one read, as TCP does)
+	coalesce bool
 }
 
 func newC06pipe() *c06pipe { return &c06pipe{ch: make(chan []byte, 256)} }
@@ -66,6 +70,19 @@ func (p *c06pipe) Read(b []byte) (int, error) {
 			return 0, io.EOF
 		}
 		p.rest = d
+		for p.coalesce {
+			select {
+			case more, ok := <-p.ch:
+				if !ok {
+					p.coalesce = false
+					break
+				}
+				p.rest = append(p.rest, more...)
+				continue
+			default:
+			}
+			break
+		}
 	}
 	n := copy(b, p.rest)
 	p.rest = p.rest[n:]
@@ -80,9 +97,20 @@ type c06end struct {
 	out            []byte
 	idx            int
 	route          func(idx int, frame []byte)
+	onReset        func()
 }
 
 func (e *c06end) Read(b []byte) (int, error) { return e.in.Read(b) }
+
+// Reset and Close end the stream (the responder's stream handler resets it when it is done).
+func (e *c06end) Reset() error {
+	e.in.close()
+	if e.onReset != nil {
+		e.onReset()
+	}
+	return nil
+}
+func (e *c06end) Close() error { return e.Reset() }
 
 func (e *c06end) Write(b []byte) (int, error) {
 	e.out = append(e.out, b...)
@@ -103,6 +131,16 @@ func c06delimited(frame []byte) []byte {
 	n := binary.PutUvarint(hdr[:], uint64(len(frame)))
 	return append(hdr[:n:n], frame...)
 }
+
+// c06host stands for the IPFS node of the responder: it only records the stream handler that the contact-request
+// manager registers (every other method of the interface is absent: nil embedded interface).
+type c06host struct {
+	ipfsutil.ExtendedCoreAPI
+	handler network.StreamHandler
+}
+
+func (h *c06host) SetStreamHandler(_ protocol.ID, f network.StreamHandler) { h.handler = f }
+func (h *c06host) RemoveStreamHandler(protocol.ID)                          { h.handler = nil }
 
 func TestVerifC06R(t *testing.T) {
 	kernel.InstallCrypto(t)
@@ -144,7 +182,26 @@ func c06rrun(r *kernel.Run, seed uint64) {
 		r.Infra("account key: %v", err)
 		return
 	}
-	mgr := &contactRequestsManager{logger: zap.NewNop(), accountPrivateKey: bsk, metadataStore: m}
+	host := &c06host{}
+	mgr, err := newContactRequestsManager(nil, m, host, zap.NewNop()) // the real constructor (its metadata watcher runs too)
+	if err != nil {
+		r.Infra("contact request manager: %v", err)
+		return
+	}
+	defer mgr.cancel()
+	s.wait()
+	// the responder serves requests through the stream handler its manager registers when contact requests are enabled
+	viaHandler := r.Choose(2) == 0
+	if viaHandler {
+		mgr.muManager.Lock()
+		err := mgr.enableContactRequest(ctx)
+		mgr.muManager.Unlock()
+		if err != nil || host.handler == nil {
+			r.Infra("enable contact request: %v", err)
+			return
+		}
+		r.Probe("served_through_registered_stream_handler")
+	}
 	esk, epk, _ := crypto.GenerateEd25519Key(nil)
 	eraw, _ := epk.Raw()
 	type rec struct {
@@ -154,8 +211,23 @@ func c06rrun(r *kernel.Run, seed uint64) {
 	var recorded []rec
 	var honestKeys [][]byte
 	nsessions := 1 + r.Choose(5)
+	// flood mode: several refused requests in a row, then an honest one (whatever a responder keeps per refused request
+	// - a slot, a counter, a table entry - must not make it deaf to the next honest requester)
+	flood := 0
+	if r.Choose(4) == 0 {
+		flood = 4 + r.Choose(4)
+		nsessions = flood + 1 + r.Choose(2)
+		r.Fault("flood_of_refused_requests")
+	}
 	for si := 0; si < nsessions && !r.Failed(); si++ {
 		kind := r.Choose(5) // 0 untouched honest, 1 honest with one fault on a handshake frame, 2 honest with the contact message altered, 3 adversary as requester under its own key, 4 honest with a recorded frame replayed
+		if flood > 0 {
+			if si < flood {
+				kind = 1 + r.Choose(2)*2 // a fault on a handshake frame, or the adversary with a bad contact message
+			} else {
+				kind = 0
+			}
+		}
 		var rsk crypto.PrivKey
 		var rraw []byte
 		if kind == 3 {
@@ -200,6 +272,10 @@ func c06rrun(r *kernel.Run, seed uint64) {
 			r.Fault(fmt.Sprintf("session_kind_%d", kind))
 		}
 		toResp, toReq := newC06pipe(), newC06pipe()
+		if r.Choose(2) == 0 {
+			toResp.coalesce, toReq.coalesce = true, true
+			r.Fault("frames_coalesced_in_one_read")
+		}
 		var other []byte
 		if len(honestKeys) > 1 {
 			other = honestKeys[0]
@@ -289,8 +365,13 @@ func c06rrun(r *kernel.Run, seed uint64) {
 		before := m.OpLog().Len()
 		var reqHS, reqErr, respErr error
 		reqDone, respDone := false, false
+		respEnd.onReset = toReq.close
 		go func() {
 			defer func() { respDone = true; toReq.close() }()
+			if viaHandler {
+				host.handler(respEnd) // logs its error; what it did is observed in the log below
+				return
+			}
 			respErr = mgr.handleIncomingRequest(ctx, respEnd)
 		}()
 		go func() {
@@ -352,7 +433,7 @@ func c06rrun(r *kernel.Run, seed uint64) {
 			r.Probe("incoming_request_recorded")
 		}
 		if kind == 0 {
-			if respErr != nil || reqErr != nil || len(appended) != 1 {
+			if (respErr != nil && !viaHandler) || reqErr != nil || len(appended) != 1 {
 				r.Violate("completeness", "honest-handshake-failed", "session %d: untouched honest request failed: requester=%v responder=%v appended=%d", si, reqErr, respErr, len(appended))
 				return
 			}
